@@ -102,6 +102,9 @@ class Tr:
         self.intent = {}
         body = []
         for l in lines[1:]:
+            if re.match(r"^(integer|real|logical|double|complex|character)\b", l) and not re.match(
+                    r"^(integer\(c_int\)|real\(c_double\)|logical\(c_bool\))\s*(?:,\s*intent\(\w+\))?\s*::", l):
+                raise Bad("%s: declaration %r is not integer(c_int) / real(c_double) / logical(c_bool)" % (name, l))
             d = re.match(r"^(integer|real|logical)\s*\([^)]*\)\s*(?:,\s*intent\((\w+)\))?\s*::\s*(.*)$", l)
             if d:
                 for item in re.findall(r"(\w+)(?:\(([^)]*)\))?", d.group(3)):
@@ -513,7 +516,9 @@ def gen_specialize_closed():
     env = {"start": "start", "end_": "end_"}
     lets, cols = [], {}
     for l in body[1:]:
-        if re.match(r"^(integer|real)\b", l):
+        if re.match(r"^(integer|real|logical|double|complex)\b", l):
+            if not re.match(r"^(integer\(c_int\)|real\(c_double\))\s*(?:,\s*intent\(\w+\))?\s*::", l):
+                raise Bad("specialize_curve_quadratic: declaration %r is not integer(c_int) / real(c_double)" % l)
             continue
         m = re.match(r"^new_nodes\(:,\s*(\d+)\)\s*=\s*(.*)$", l)
         if m:
